@@ -69,6 +69,8 @@ pub enum WSel {
     LimitPlus(i64),
     TwiceLimit,
     MaxMinus(i64),
+    /// the weight currently charged for the key (upserts; resolved by the interpreter, 10 if the key is not held)
+    Current,
 }
 
 impl WSel {
@@ -81,6 +83,7 @@ impl WSel {
             WSel::LimitPlus(d) => limit.saturating_add(*d),
             WSel::TwiceLimit => limit.saturating_mul(2),
             WSel::MaxMinus(d) => i64::MAX - *d,
+            WSel::Current => 10,
         };
         weight.max(1)
     }
@@ -230,7 +233,7 @@ pub fn key_strategy(max_key: u8) -> BoxedStrategy<u8> {
 
 pub fn wsel_strategy(params: &GenParams) -> BoxedStrategy<WSel> {
     if !params.pressure && !params.boundary {
-        return prop_oneof![4 => (1i64..=64).prop_map(WSel::Abs), 1 => Just(WSel::Abs(24)), 1 => Just(WSel::Abs(25))].boxed();
+        return prop_oneof![4 => (1i64..=64).prop_map(WSel::Abs), 1 => Just(WSel::Abs(24)), 1 => Just(WSel::Abs(25)), 1 => Just(WSel::Current)].boxed();
     }
     if params.boundary {
         return prop_oneof![
@@ -246,6 +249,7 @@ pub fn wsel_strategy(params: &GenParams) -> BoxedStrategy<WSel> {
     }
     prop_oneof![
         4 => (1i64..=40).prop_map(WSel::Abs),
+        2 => Just(WSel::Current),
         6 => (1u8..=16).prop_map(WSel::Sixteenth),
         1 => Just(WSel::Limit),
         1 => (1i64..=2).prop_map(WSel::LimitMinus),
